@@ -106,6 +106,12 @@ def run(ctx):
         from ..paths import PathEnumerator
     from .common import double_hashing_rules
     double_hashing_rules(ctx, "R07-double-hashing")
+    # `accepts n distinct inserts without reporting Full` presupposes that an evicted fingerprint is re-offered to its
+    # ALTERNATE bucket: the relocation premise is C01's kick-loop typestate rule
+    ii = ctx.anchor(CF + "::insert_internal")
+    if ii is not None:
+        from .C01 import kick_loop
+        kick_loop(ctx, ii)
     # ---- divisors ----------------------------------------------------------------------------------------
     n_div = 0
     for h in prog.fns.values():
